@@ -181,7 +181,9 @@ void janet_fiber_pushn(JanetFiber *fiber, const Janet *arr, int32_t n) {
 static Janet make_struct_n(const Janet *args, int32_t n) {
     int32_t i = 0;
     JanetKV *st = janet_struct_begin(n & (~1));
-    for (; i < n; i += 2) {
+    /* Only complete key-value pairs: with an odd count, args[n] is not an argument
+     * (nil after a normal call, stale or out of bounds after a tail call). */
+    for (; i + 1 < n; i += 2) {
         janet_struct_put(st, args[i], args[i + 1]);
     }
     return janet_wrap_struct(janet_struct_end(st));
